@@ -389,14 +389,22 @@ Proof.
   intros fuel st x st' ev e H HI Hx HK. unfold set_canonical in H.
   destruct (if avail st (fst x) then (st, [], None) else recover_ancestors T fuel st x)
     as [[st1 ev1] e1] eqn:ER.
+  assert (W1 : forall s y s1, WithKnown P (fst x) s -> write_block_with_state s y = Ok s1 -> WithKnown P (fst x) s1).
+  { intros s y s1 (Hp & Hk) Hw. split; [eauto|]. apply (wbws_known _ _ _ _ Hw); auto. }
+  assert (W2 : forall s h, WithKnown P (fst x) s -> WithKnown P (fst x) (add_known s h)).
+  { intros s h (Hp & Hk). split; auto. now apply add_known_known. }
+  assert (W3 : forall s h, WithKnown P (fst x) s ->
+     WithKnown P (fst x) (mkdb (known s) (upd (rcpt s) h true) (avail s) (disk s) (canon s) (lookup s)
+                               (hd_block s) (hd_header s) (hd_snap s))).
+  { intros s h (Hp & Hk). split; auto. }
+  assert (W4 : forall f s y s' ev0, WithKnown P (fst x) s -> hdr_ok y -> is_known s (fst y) = true ->
+     write_known_block T f s y = Ok (s', ev0) -> WithKnown P (fst x) s').
+  { intros f s y s' ev0 (Hp & Hk) Hy Hky Hw. split; [eauto|].
+    unfold is_known in *. now rewrite (wkb_known _ _ _ _ _ Hw). }
   assert (HI1 : WithKnown P (fst x) st1).
   { destruct (avail st (fst x)); [inversion ER; subst; split; auto|].
-    eapply (recover_ancestors_gen (WithKnown P (fst x))); eauto; try (split; auto; fail).
-    - intros s y s1 (Hp & Hk) Hw. split; [eauto|]. apply (wbws_known _ _ _ _ Hw); auto.
-    - intros s h (Hp & Hk). split; auto. now apply add_known_known.
-    - intros s h (Hp & Hk). split; auto.
-    - intros f s y s' ev0 (Hp & Hk) Hy Hky Hw. split; [eauto|].
-      unfold is_known in *. now rewrite (wkb_known _ _ _ _ _ Hw). }
+    eapply (recover_ancestors_gen (WithKnown P (fst x)));
+      first [exact W1 | exact W2 | exact W3 | exact W4 | exact ER | exact Hx | (split; assumption)]. }
   destruct HI1 as (HP1 & HK1).
   destruct e1; [inversion H; subst; auto|].
   destruct (reorg_if_needed T fuel st1 x) as [[st2 ev2]|] eqn:ERI; inversion H; subst; auto.
@@ -444,6 +452,217 @@ Proof.
   intros. eapply (step_import_gen Inv Inv_wbws Inv_addk Inv_rcpt Inv_wkb); eauto.
 Qed.
 
+(* ---- SetHead and restart ---- *)
+(* y is an ancestor (inclusive) of x *)
+Definition IsAnc (x y : hdr) : Prop :=
+  hdr_ok y /\ hnum y <= hnum x /\ anc T (fst x) (hnum y) = Some (fst y).
+
+Lemma IsAnc_refl : forall x, hdr_ok x -> IsAnc x x.
+Proof. intros x Hx. repeat split; auto; [lia | now apply anc_self]. Qed.
+
+Lemma IsAnc_parent : forall x p, hdr_ok x -> parent_of T x p -> IsAnc x p.
+Proof.
+  intros x p Hx Hp. pose proof Hp as (Hpo & _ & Hn). repeat split; auto; [lia|].
+  rewrite (anc_parent T x p (hnum p) Hx Hp) by lia. now apply anc_self.
+Qed.
+
+Lemma IsAnc_below : forall x y, hdr_ok x -> IsAnc x y ->
+  forall n, n <= hnum y -> anc T (fst y) n = anc T (fst x) n.
+Proof.
+  intros x y Hx (Hy & Hle & Ha) n Hn.
+  destruct (anc_down _ x (hnum y) (fst y) Hx eq_refl Hle Ha) as (bh & _ & _ & Hall). now apply Hall.
+Qed.
+
+Lemma IsAnc_trans : forall x y z, hdr_ok x -> IsAnc x y -> IsAnc y z -> IsAnc x z.
+Proof.
+  intros x y z Hx Hxy Hyz. pose proof Hxy as (Hy & Hle & Ha). pose proof Hyz as (Hz & Hle' & Ha').
+  repeat split; auto; [lia|]. rewrite <- (IsAnc_below x y Hx Hxy) by lia. exact Ha'.
+Qed.
+
+Lemma GC_anc : forall c x y, hdr_ok x -> GC c x -> IsAnc x y -> GC c y.
+Proof.
+  intros c x y Hx HG Hxy n Hn. pose proof Hxy as (_ & Hle & _).
+  rewrite HG by lia. symmetry. now apply IsAnc_below.
+Qed.
+
+Lemma wf_zero : forall x, hdr_ok x -> hnum x = 0 -> fst x = 0.
+Proof.
+  intros [h b] Hx H0. destruct Hwf as (_ & W). destruct (W h b Hx) as [[_ E]|(Hpos & _)]; auto.
+  unfold hnum in H0. cbn in *. lia.
+Qed.
+
+Lemma anc_zero : forall d x, hdr_ok x -> N.to_nat (hnum x) = d -> anc T (fst x) 0 = Some 0.
+Proof.
+  induction d as [|d IH]; intros x Hx Hd.
+  - assert (E : hnum x = 0) by lia. rewrite <- E at 1. rewrite anc_self by auto. f_equal. now apply wf_zero.
+  - destruct (wf_parent x Hx) as [E0|(p & Hp)]; [lia|].
+    rewrite (anc_parent T x _ 0 Hx Hp) by lia. pose proof Hp as (Hpo & _ & Hn).
+    apply (IH _ Hpo). lia.
+Qed.
+
+Definition is_genesis (g : hdr) : Prop := hdr_ok g /\ fst g = 0 /\ hnum g = 0.
+
+Lemma IsAnc_genesis : forall x g, hdr_ok x -> is_genesis g -> IsAnc x g.
+Proof.
+  intros x g Hx (Hg & Hg0 & Hgn). repeat split; auto; [lia|]. rewrite Hgn, Hg0.
+  eapply anc_zero; eauto.
+Qed.
+
+Lemma rewind_anc : forall fuel st g x y, rewind T fuel st g x = Some y ->
+  hdr_ok x -> is_genesis g -> IsAnc x y.
+Proof.
+  induction fuel as [|f IH]; intros st g x y H Hx Hg; [discriminate|].
+  cbn [rewind] in H. destruct (avail st (fst x)).
+  - inversion H; subst. now apply IsAnc_refl.
+  - destruct (parent_hdr T st x) as [p|] eqn:EP.
+    + pose proof (parent_hdr_spec T _ _ _ EP) as Hp.
+      destruct (hnum p =? 0).
+      * inversion H; subst. now apply IsAnc_parent.
+      * apply (IsAnc_trans x p y Hx); [now apply IsAnc_parent | eapply IH; eauto; apply Hp].
+    + inversion H; subst. now apply IsAnc_genesis.
+Qed.
+
+Lemma Inv_intro : forall st h b, hdr_ok h -> fst h = hd_header st -> GC (canon st) h ->
+  IsAnc h b -> fst b = hd_block st -> Inv st.
+Proof.
+  intros st [hh hb] [bh bb] Hh Eh HG (Hb & Hle & Ha) Eb. cbn [fst] in *. subst.
+  exists hb, bb. repeat split; auto.
+Qed.
+
+Lemma Inv_elim : forall st, Inv st -> exists hb bb,
+  hdr_ok (hd_header st, hb) /\ GC (canon st) (hd_header st, hb) /\
+  IsAnc (hd_header st, hb) (hd_block st, bb).
+Proof.
+  intros st (hb & bb & Hh & Hb & HG & Hle & Ha). exists hb, bb. repeat split; auto.
+Qed.
+
+Lemma heights_above_ge : forall fuel st n l, heights_above T fuel st n = Some l ->
+  forall d, In d l -> n <= d.
+Proof.
+  induction fuel as [|f IH]; intros st n l H d Hd; [discriminate|].
+  cbn in H. destruct (any_at T st n); [|inversion H; subst; destruct Hd].
+  destruct (heights_above T f st (n + 1)) as [l'|] eqn:E; [|discriminate].
+  inversion H; subst. destruct Hd as [<-|Hd]; [lia|]. specialize (IH _ _ _ E d Hd). lia.
+Qed.
+
+Lemma set_head_loop_inv : forall fuel st g target origin dels st' dels',
+  set_head_loop T fuel st g target origin dels = Ok (st', dels') ->
+  Inv st -> is_genesis g -> (forall d, In d dels -> num_of T (hd_header st) < d) ->
+  Inv st' /\ canon st' = canon st /\ (forall d, In d dels' -> num_of T (hd_header st') < d).
+Proof.
+  induction fuel as [|f IH]; intros st g target origin dels st' dels' H HI Hg Hd; [discriminate|].
+  cbn [set_head_loop] in H.
+  destruct (Inv_elim st HI) as (hb & bb & Hh & HG & HA).
+  unfold CanonicalProofs.hdr_ok in Hh. cbn [fst snd] in Hh. rewrite Hh in H.
+  destruct (b_number hb <=? target) eqn:ET.
+  - inversion H; subst. repeat split; auto.
+  - apply N.leb_gt in ET.
+    set (hdr0 := (hd_header st, hb)) in *.
+    set (parent := match parent_hdr T st hdr0 with Some p => p | None => g end) in *.
+    assert (HP : IsAnc hdr0 parent /\ hnum parent < b_number hb).
+    { subst parent. destruct (parent_hdr T st hdr0) as [p|] eqn:EP.
+      - pose proof (parent_hdr_spec T _ _ _ EP) as Hp. split; [now apply IsAnc_parent|].
+        destruct Hp as (_ & _ & Hn). unfold hdr0, hnum in *. cbn [snd] in *. lia.
+      - split; [now apply IsAnc_genesis|]. destruct Hg as (_ & _ & Hgn). lia. }
+    destruct HP as (HAP & Hlt). pose proof HAP as (Hpo & _ & _).
+    assert (Hcur : cur_hdr T st = Some (hd_block st, bb)).
+    { unfold cur_hdr. destruct HA as (Hbo & _). unfold CanonicalProofs.hdr_ok in Hbo. cbn in Hbo. now rewrite Hbo. }
+    rewrite Hcur in H.
+    match type of H with context [match ?X with Err e => Err e | Ok nb => _ end] =>
+      destruct X as [nb|] eqn:ENB; [|discriminate] end.
+    assert (HNB : exists nbb, IsAnc parent (nb, nbb)).
+    { destruct (hnum parent <=? hnum (hd_block st, bb)) eqn:EL.
+      - destruct (rewind T (S f) st g parent) as [nh|] eqn:ER; [|discriminate].
+        inversion ENB; subst. exists (snd nh). destruct nh; cbn. eapply rewind_anc; eauto.
+      - inversion ENB; subst. exists bb. apply N.leb_gt in EL.
+        pose proof HA as (Hbo & Hble & Hba). repeat split; auto; [lia|].
+        rewrite (IsAnc_below hdr0 parent Hh HAP) by lia. exact Hba. }
+    destruct HNB as (nbb & HNB).
+    match type of H with context [match ?X with None => Err EOutOfFuel | Some up => _ end] =>
+      destruct X as [up|] eqn:EUP; [|discriminate] end.
+    match type of H with context [set_head_loop T f ?s1 g target false ?dd] =>
+      assert (HI1 : Inv s1 /\ canon s1 = canon st /\ hd_header s1 = fst parent) end.
+    { split; [|split; reflexivity].
+      eapply (Inv_intro _ parent (nb, nbb)); eauto; try reflexivity.
+      cbn [canon]. exact (GC_anc _ hdr0 parent Hh HG HAP). }
+    destruct HI1 as (HI1 & EC1 & EH1).
+    match type of H with set_head_loop T f ?s1 g target false ?dd = _ =>
+      assert (HD1 : forall d, In d dd -> num_of T (hd_header s1) < d) end.
+    { intros d Hin. cbn [hd_header].
+      assert (Enum : num_of T (fst parent) = hnum parent).
+      { unfold num_of. unfold CanonicalProofs.hdr_ok in Hpo. now rewrite Hpo. }
+      rewrite Enum. apply in_app_or in Hin as [Hin|Hin].
+      - specialize (Hd d Hin). unfold num_of in Hd. rewrite Hh in Hd. lia.
+      - apply in_app_or in Hin as [Hin|Hin].
+        + apply in_rev in Hin. destruct origin; [|inversion EUP; subst; destruct Hin].
+          pose proof (heights_above_ge _ _ _ _ EUP d Hin). lia.
+        + destruct Hin as [<-|[]]. lia. }
+    destruct (IH _ _ _ _ _ _ _ H HI1 Hg HD1) as (HI' & EC' & HD').
+    repeat split; auto; congruence.
+Qed.
+
+Lemma mem_In : forall x l, mem x l = true -> In x l.
+Proof.
+  intros x l H. unfold mem in H. apply existsb_exists in H as (y & Hy & E). apply N.eqb_eq in E. now subst.
+Qed.
+
+Lemma delete_heights_inv : forall st dels, Inv st ->
+  (forall d, In d dels -> num_of T (hd_header st) < d) -> Inv (delete_heights T st dels).
+Proof.
+  intros st dels HI Hd. destruct (Inv_elim st HI) as (hb & bb & Hh & HG & HA).
+  eapply (Inv_intro _ (hd_header st, hb) (hd_block st, bb)); eauto; try reflexivity.
+  intros n Hn. cbn [delete_heights canon]. destruct (mem n dels) eqn:EM; [|now apply HG].
+  apply mem_In in EM. specialize (Hd n EM). unfold num_of in Hd.
+  unfold CanonicalProofs.hdr_ok in Hh. cbn in Hh. rewrite Hh in Hd. unfold hnum in Hn. cbn in Hn. lia.
+Qed.
+
+Lemma genesis_is : forall gb, T 0 = Some gb -> is_genesis (0, gb).
+Proof.
+  intros gb H. destruct Hwf as ((g & Hg & Hg0) & _). rewrite H in Hg. inversion Hg; subst.
+  repeat split; auto.
+Qed.
+
+Lemma set_head_inv : forall fuel st target st' ev e,
+  set_head T fuel st target = (st', ev, e) -> Inv st -> Inv st'.
+Proof.
+  intros fuel st target st' ev e H HI. unfold set_head in H.
+  destruct (T 0) as [gb|] eqn:EG; [|inversion H; subst; auto].
+  destruct (set_head_loop T fuel st (0, gb) target true []) as [[st1 dels]|] eqn:EL;
+    [|inversion H; subst; auto].
+  destruct (set_head_loop_inv _ _ _ _ _ _ _ _ EL HI (genesis_is _ EG)) as (HI1 & _ & HD1);
+    [intros d []|].
+  pose proof (delete_heights_inv st1 dels HI1 HD1) as HI2.
+  destruct (negb (is_known (delete_heights T st1 dels) (hd_block (delete_heights T st1 dels))));
+    inversion H; subst; auto.
+Qed.
+
+Lemma restart_inv : forall fuel st st' ev e, restart T fuel st = (st', ev, e) -> Inv st -> Inv st'.
+Proof.
+  intros fuel st st' ev e H HI. unfold restart in H.
+  destruct (Inv_elim st HI) as (hb & bb & Hh & HG & HA).
+  assert (Hcur : cur_hdr T st = Some (hd_block st, bb)).
+  { unfold cur_hdr. destruct HA as (Hbo & _). unfold CanonicalProofs.hdr_ok in Hbo. cbn in Hbo. now rewrite Hbo. }
+  rewrite Hcur in H. destruct (T 0) as [gb|] eqn:EG; [|inversion H; subst; auto].
+  cbv zeta in H.
+  match type of H with context [if avail ?s1 (hd_block ?s1) then _ else _] => set (st1 := s1) in * end.
+  assert (HI1 : Inv st1) by exact HI.
+  destruct (avail st1 (hd_block st1)); [inversion H; subst; auto|].
+  destruct (rewind T fuel st1 (0, gb) (hd_block st, bb)) as [nh|] eqn:ER; inversion H; subst; auto.
+  destruct nh as [nhh nhb].
+  eapply (Inv_intro _ (hd_header st, hb) (nhh, nhb)); eauto; try reflexivity.
+  eapply IsAnc_trans; eauto. eapply rewind_anc; eauto; [apply HA | now apply genesis_is].
+Qed.
+
+Lemma step_inv : forall fuel st o st' ev e, step T fuel st o = (st', ev, e) -> Inv st -> Inv st'.
+Proof.
+  intros fuel st o st' ev e H HI. destruct o as [l|h|h|n|] eqn:EO.
+  - eapply step_import_inv; eauto; exact I.
+  - eapply step_import_inv; eauto; exact I.
+  - eapply step_import_inv; eauto; exact I.
+  - cbn [step] in H. eapply set_head_inv; eauto.
+  - cbn [step] in H. eapply restart_inv; eauto.
+Qed.
+
 Lemma Inv_genesis : Inv genesis_db.
 Proof.
   destruct Hwf as ((g & Hg & Hg0) & _). exists g, g. cbn. repeat split; auto.
@@ -460,11 +679,10 @@ Fixpoint run (fuel : nat) (st : db) (ops : list op) : db :=
   | o :: r => run fuel (fst (fst (step T fuel st o))) r
   end.
 
-Lemma run_inv : forall fuel ops st, Forall import_op ops -> Inv st -> Inv (run fuel st ops).
+Lemma run_inv : forall fuel ops st, Inv st -> Inv (run fuel st ops).
 Proof.
-  induction ops as [|o r IH]; intros st HF HI; cbn; auto.
-  inversion HF; subst. apply IH; auto.
-  destruct (step T fuel st o) as [[st1 ev] e] eqn:ES. cbn. eapply step_import_inv; eauto.
+  induction ops as [|o r IH]; intros st HI; cbn; auto.
+  apply IH. destruct (step T fuel st o) as [[st1 ev] e] eqn:ES. cbn. eapply step_inv; eauto.
 Qed.
 
 (* the invariant in the property's own words *)
